@@ -55,6 +55,8 @@ def run(ctx: Ctx):
         if len(ctx.violations) > 15:
             break
     # 3. C->S
+    if len(ctx.violations) > 15:
+        return          # the run already fails: skip the random runs (a broken tree makes them slow)
     n = ctx.pick(300, 3000)
     for i in range(n):
         conc = dd.CONCS_OFF[i % len(dd.CONCS_OFF)]
